@@ -21,7 +21,9 @@
 package engine
 
 import (
+	"errors"
 	"fmt"
+	"go/ast"
 	"go/token"
 	"reflect"
 
@@ -169,6 +171,13 @@ func (r StructReplacer) Replace(d data.Data, cl Changelog, pos token.Pos) (refle
 		if err := assign(v.Field(i), fv); err != nil {
 			return reflect.Value{}, err
 		}
+	}
+
+	// A "..." that stood for no expression at all can leave an assignment
+	// without a left or right hand side: not a valid node, and one whose
+	// position cannot even be asked for.
+	if as, ok := v.Addr().Interface().(*ast.AssignStmt); ok && (len(as.Lhs) == 0 || len(as.Rhs) == 0) {
+		return reflect.Value{}, errors.New("replacement leaves an assignment without a left or right hand side")
 	}
 	return v, nil
 }
